@@ -40,11 +40,9 @@ Lemma gen_column : dry_column = 1.
 Proof. reflexivity. Qed.
 Lemma gen_is_other : forall same ds de bs be, dry_is_other same ds de bs be = negb same || negb (ds =? bs).
 Proof. reflexivity. Qed.
-(* the overlap test of the violation filter, pinned where both violations have the same line count: there the
-   test as found (it adds the LATER violation's count, the q_overlap_asym finding of Props/C03Known.v) and the
-   documented one (the kept, earlier block's extent) coincide, so this fact survives a repair of the defect
-   and still breaks when the comparison is altered *)
-Lemma gen_viol_overlap_diag : forall l1 l2 c, dry_viol_overlap l1 l2 c c = (l1 <? l2 + c).
+(* the overlap test of the violation filter as read from the source (repaired by fix f9c5945): a later violation
+   overlaps a kept, earlier one iff it starts inside the EARLIER block's extent (count2) *)
+Lemma gen_viol_overlap : forall l1 l2 c1 c2, dry_viol_overlap l1 l2 c1 c2 = (l1 <? l2 + c2).
 Proof. reflexivity. Qed.
 Lemma gen_extract_literals : dry_count_open = "(" /\ dry_count_open_off = 1 /\ dry_count_close = " lines".
 Proof. repeat split; reflexivity. Qed.
@@ -121,9 +119,6 @@ Qed.
 (* ------------------------------------------------------------------ defect classes (the complement of) *)
 Definition code_plain (a : aline) : bool := negb (str_contains "#" (a_code a)) && negb (str_contains "//" (a_code a)).
 Definition no_block (a : aline) : bool := match a_cmt a with CBlock _ => false | _ => true end.
-(* every stored window spans exactly W source lines: no blank / comment / docstring / import line inside *)
-Definition dense (W : nat) (rows : list row) : bool := forallb (fun r => r_end r - r_start r + 1 =? W) rows.
-
 Definition lines_ok (q : dquirks) (files : list afile) : Prop :=
   forall f a, In f files -> In a (f_lines f) ->
     (q_strip_in_code q = true -> a_doc a = false -> code_plain a = true) /\ (q_block_comment_kept q = true -> a_doc a = false -> no_block a = true).
@@ -249,34 +244,23 @@ Proof.
   - intros n k. apply gen_meets.
 Qed.
 
-Lemma raw_count_dense W k rows v : dense W rows = true -> In v (raw_viols ref_bparams k rows) -> v_count v = W.
+(* No hypothesis on q_overlap_asym: with the flag on the model uses the overlap test of the source, which is the
+   documented one (gen_viol_overlap). *)
+Theorem model_eq_ref q W k files : lines_ok q files -> dry_model q W k files = ref_report W k files.
 Proof.
-  intros Hd Hv. apply raw_in in Hv. destruct Hv as [s [b [_ [_ [Hb ->]]]]].
-  destruct (places_incl s rows b Hb) as [Hbr _]. unfold dense in Hd. rewrite forallb_forall in Hd.
-  specialize (Hd b Hbr). apply Nat.eqb_eq in Hd. exact Hd.
-Qed.
-
-Theorem model_eq_ref q W k files :
-  lines_ok q files -> (q_overlap_asym q = true -> dense W (ref_rows W files) = true) ->
-  dry_model q W k files = ref_report W k files.
-Proof.
-  intros Hl Hd. unfold dry_model, ref_report, pipeline. fold (dry_rows q W files). fold (ref_rows W files).
+  intros Hl. unfold dry_model, ref_report, pipeline. fold (dry_rows q W files). fold (ref_rows W files).
   rewrite (model_rows_eq q W files Hl). unfold report.
   rewrite (raw_viols_ext _ _ k (ref_rows W files) (model_bagree q)).
-  apply dedup_viols_ext. intros v1 v2 H1 H2. unfold v_ovl. cbn [p_viol_overlap model_bparams ref_bparams].
-  destruct (q_overlap_asym q); [|reflexivity]. specialize (Hd eq_refl).
-  rewrite (raw_count_dense W k _ v1 Hd H1), (raw_count_dense W k _ v2 Hd H2). apply gen_viol_overlap_diag.
+  apply dedup_viols_ext. intros v1 v2 _ _. unfold v_ovl. cbn [p_viol_overlap model_bparams ref_bparams].
+  destruct (q_overlap_asym q); [apply gen_viol_overlap|reflexivity].
 Qed.
 
 Lemma lines_ok_off q files : q_strip_in_code q = false -> q_block_comment_kept q = false -> lines_ok q files.
 Proof. intros H1 H2 f a _ _. rewrite H1, H2. split; intros; discriminate. Qed.
 
 Theorem model_eq_ref_off q W k files :
-  q_strip_in_code q = false -> q_block_comment_kept q = false -> q_overlap_asym q = false ->
-  dry_model q W k files = ref_report W k files.
-Proof.
-  intros H1 H2 H3. apply model_eq_ref; [exact (lines_ok_off q files H1 H2)|]. rewrite H3. discriminate.
-Qed.
+  q_strip_in_code q = false -> q_block_comment_kept q = false -> dry_model q W k files = ref_report W k files.
+Proof. intros H1 H2. apply model_eq_ref. exact (lines_ok_off q files H1 H2). Qed.
 
 (* ------------------------------------------------------------------ (3) the property, for the reference *)
 Section Property.
@@ -333,12 +317,12 @@ End Property.
 
 (* ------------------------------------------------------------------ the property, for the model *)
 Theorem dry_property q W k files : 1 <= W -> 2 <= k ->
-  lines_ok q files -> (q_overlap_asym q = true -> dense W (ref_rows W files) = true) ->
+  lines_ok q files ->
   let R := dry_model q W k files in
   sound files W R /\ mutual R /\ (forall v, In v R -> count_ok (ref_rows W files) v) /\ complete (ref_rows W files) k R
   /\ ((forall a b, In a (ref_rows W files) -> In b (ref_rows W files) -> r_snip a = r_snip b -> a = b) -> R = []).
 Proof.
-  intros HW Hk Hl Hd. cbn zeta. rewrite (model_eq_ref q W k files Hl Hd).
+  intros HW Hk Hl. cbn zeta. rewrite (model_eq_ref q W k files Hl).
   split; [exact (ref_sound W k files HW Hk)|]. split; [exact (ref_mutual W k files HW Hk)|].
   split; [exact (ref_count W k files HW Hk)|]. split; [exact (ref_complete W k files HW Hk)|exact (ref_none W k files HW)].
 Qed.
